@@ -30,6 +30,7 @@ def main():
     ap.add_argument("--tier", default="quick")
     ap.add_argument("--keep", action="store_true")
     ap.add_argument("--seed", default="0")
+    ap.add_argument("--no-demo", action="store_true", help="harmless-refactoring mode: no demo.py, every check is expected to exit 0")
     a = ap.parse_args()
     sd = Path(a.seed_dir).resolve()
     meta = json.loads((sd / "meta.json").read_text()) if (sd / "meta.json").exists() else {}
@@ -43,11 +44,11 @@ def main():
             print("worktree failed", o); return 2
         env0 = dict(os.environ, PYTHONPATH=REPO)
         env1 = dict(os.environ, PYTHONPATH=str(wt))
-        rc0, o0 = sh([PY, str(sd / "demo.py")], cwd=str(base), env=dict(os.environ, PYTHONPATH=str(wt)))
+        rc0, o0 = (0, "") if a.no_demo else sh([PY, str(sd / "demo.py")], cwd=str(base), env=dict(os.environ, PYTHONPATH=str(wt)))
         rc, o = sh(["git", "-C", str(wt), "apply", str(sd / "patch.diff")])
         if rc:
             print("patch does not apply:", o); out["patch"] = "does-not-apply"; print(json.dumps(out)); return 2
-        rc1, o1 = sh([PY, str(sd / "demo.py")], cwd=str(base), env=env1)
+        rc1, o1 = (1, "") if a.no_demo else sh([PY, str(sd / "demo.py")], cwd=str(base), env=env1)
         out["demo_pristine_exit"], out["demo_patched_exit"] = rc0, rc1
         out["demo_patched_tail"] = o1.strip().split("\n")[-3:]
         print(f"demo: pristine exit {rc0}, patched exit {rc1}")
